@@ -6,6 +6,8 @@ pub mod c12;
 pub mod c16;
 pub mod c21;
 pub mod c26;
+pub mod c22;
+pub mod c34;
 
 pub fn for_property(p: &str) -> Vec<Suite> {
     match p {
@@ -17,6 +19,8 @@ pub fn for_property(p: &str) -> Vec<Suite> {
         "C13" => c12::suites_c13(),
         "C14" => c12::suites_c14(),
         "C15" => c12::suites_c15(),
+        "C22" => c22::suites(),
+        "C34" => c34::suites(),
         _ => vec![],
     }
 }
@@ -25,6 +29,7 @@ pub fn for_property(p: &str) -> Vec<Suite> {
 pub fn extract_all(dir: &Path) {
     c09::extract(dir);
     c16::extract(dir);
+    c22::extract(dir);
 }
 
 #[allow(dead_code)]
